@@ -204,7 +204,7 @@ def metadata(ctx):
     ctx.check({"filename", "uri", "source_encoding", "line_map"} <= keys, "writer.keys", db.where(dicts[0]), "metadata keys written: %s" % sorted(keys), sorted(keys))
     lm = dict(zip([const(k) for k in dicts[0].keys], dicts[0].values)).get("line_map")
     ctx.check(lm is not None and src(lm) == "self.printer.source_map", "writer.line_map", db.where(dicts[0]), "line_map is not the printer's source_map", "line_map = printer.source_map")
-    strs = [str_value(a) for c in calls(wm, "self.printer.writelines") for a in c.args]
+    strs = [str_value(a) for c in calls(wm, "self.printer.writelines", "self.printer.writeline") for a in c.args]
     has_b = any(s and "__M_BEGIN_METADATA" in s for s in strs)
     has_e = any(s and "__M_END_METADATA" in s for s in strs)
     rx_call = [c for c in calls(rd, "re.search")]
